@@ -635,6 +635,7 @@ func registerStubs(e *Engine) {
 		"(*github.com/streamingfast/dmetrics.", "github.com/streamingfast/dmetrics.", "(github.com/streamingfast/dmetrics.",
 		"go.opentelemetry.io/otel", "(go.opentelemetry.io/otel", "(*go.opentelemetry.io/otel",
 		"github.com/streamingfast/logging/zapx.",
+		"github.com/streamingfast/dmetering.", "(github.com/streamingfast/dmetering.", "(*github.com/streamingfast/dmetering.",
 		"github.com/prometheus/client_golang/prometheus.", "(*github.com/prometheus/client_golang/prometheus.", "(github.com/prometheus/client_golang/prometheus.",
 	} {
 		prefixStubs = append(prefixStubs, prefixStub{pfx, func(name string) externalFn {
